@@ -15,7 +15,7 @@ import (
 	insaneJSON "github.com/ozontech/insane-json"
 )
 
-func TestVerifOpenJsonCutModifierPath(t *testing.T) {
+func TestVerifJsonCutModifierPath(t *testing.T) {
 	const in = `{"first":"keepkeepkeep","a":"bbbbbbbbbb"}`
 	d, err := NewJsonDecoder(Params{"json_max_fields_size": map[string]any{"a|@this": 3}})
 	if err != nil {
